@@ -54,6 +54,7 @@ class KSetup:
 
     def reset(self):
         del self.rec.calls[:]
+        self.rec.n_tags = 0
         self.w.reset()
 
 
@@ -82,7 +83,7 @@ def make_problem(S, shape):
     if shape.get("tref") == "explicit":
         tref_in = units.Time(core.real("t_ref_in"))
     data = st.data.RVData(symnp.SymArray(symnp._obj(t), symnp._F8), units.Quantity(symnp.SymArray(symnp._obj(y), symnp._F8), dunit),
-                          units.Quantity(symnp.SymArray(symnp._obj(err), symnp._F8), dunit), t_ref=tref_in)
+                          units.Quantity(symnp.SymArray(symnp._obj(err), symnp._F8), dunit), t_ref=False if shape.get("tref") == "false" else tref_in)
     # survey ids (sorted data: first nt-noff... simple deterministic assignment: epoch i belongs to survey i % (noff+1))
     ids = None
     if noff:
@@ -138,7 +139,33 @@ def make_problem(S, shape):
         par_names=["P", "e", "omega", "M0", "s"] + names_lin + off_names, model=model, pars=dict(model, P=Ppar),
         _linear_equiv_units=lin_units)
     return {"t": t, "y": y, "err": err, "data": data, "dunit": dunit, "trend_M": trend_M, "prior": prior, "pri": pri, "P_unit": P_unit,
-            "names_lin": names_lin, "off_names": off_names, "ids": ids, "tref_in": tref_in}
+            "names_lin": names_lin, "off_names": off_names, "ids": ids, "tref_in": tref_in, "history": shape.get("history"), "shape": shape}
+
+
+def prelude_prior_reused(S, pb):
+    """call history 'the same prior object was used before, with other data': a helper is built from pb's prior and a
+    second data set (own epochs, values and -- with symbolic units -- an own RV unit) and evaluates one row, before
+    the helper under check is built.  Whatever the code keeps between the two calls is then part of the run."""
+    st = S.st
+    shape = pb["shape"]
+    nt, npoly, noff = shape["nt"], shape["poly"], shape["noff"]
+    kms = units.km / units.s
+    dunit = units.sym_unit("data_pre", kms) if shape.get("units") == "sym" else units.m / units.s
+    t = [core.real("tpre_%d" % i) for i in range(nt)]
+    y = [core.real("ypre_%d" % i) for i in range(nt)]
+    err = [core.real("errpre_%d" % i) for i in range(nt)]
+    for e in err:
+        core.assume(e > 0)
+    for i in range(nt - 1):
+        core.assume(t[i] < t[i + 1])
+    data = st.data.RVData(symnp.SymArray(symnp._obj(t), symnp._F8), units.Quantity(symnp.SymArray(symnp._obj(y), symnp._F8), dunit),
+                          units.Quantity(symnp.SymArray(symnp._obj(err), symnp._F8), dunit))
+    ids = symnp.SymArray(symnp._obj([survey_of(i, nt, noff) for i in range(nt)]), symnp._I8) if noff else None
+    trend_M = st.likelihood_helpers.get_trend_design_matrix(data, ids, npoly)
+    h = S.Helper(data, pb["prior"], trend_M)
+    row = chunk_rows(1, tag="pre")
+    h.batch_marginal_ln_likelihood(symnp.SymArray(symnp._obj([list(r) for r in row]), symnp._F8))
+    del S.rec.calls[:]          # the recorder holds the stub calls of the run under check only
 
 
 def design_order(pb):
@@ -146,10 +173,10 @@ def design_order(pb):
     return ["K", "v0"] + pb["off_names"] + pb["names_lin"][2:]
 
 
-def chunk_rows(n):
+def chunk_rows(n, tag=""):
     rows = []
     for r in range(n):
-        P, e, om, M0, s = [core.real("%s_%d" % (nm, r)) for nm in ("P", "e", "om", "M0", "s")]
+        P, e, om, M0, s = [core.real("%s%s_%d" % (nm, tag, r)) for nm in ("P", "e", "om", "M0", "s")]
         core.assume(P > 0)
         core.assume(e >= 0)
         core.assume(e < 1)
@@ -194,6 +221,8 @@ def spec_prior_slots(pb, row):
 def run_marginal(S, pb, rows):
     """construct the helper (real __init__) and run batch_marginal_ln_likelihood on the chunk"""
     chunk = symnp.SymArray(symnp._obj([list(r) for r in rows]), symnp._F8)
+    if pb.get("history") == "prior_reused":
+        prelude_prior_reused(S, pb)
     h = S.Helper(pb["data"], pb["prior"], pb["trend_M"])
     ll = h.batch_marginal_ln_likelihood(chunk)
     return h, ll
@@ -207,3 +236,55 @@ def cells2(arr, n, m):
 def cells1(arr, n):
     a = arr.a if isinstance(arr, symnp.SymArray) else arr
     return [a[i] for i in range(n)]
+
+
+def pickle_roundtrip(obj):
+    """what pickle.loads(pickle.dumps(obj)) builds for an instance of a class of the code under test, following the
+    pickle protocol (2+) on the class as written: a user __reduce_ex__/__reduce__ -> callable(*args) [+ state];
+    otherwise a bare instance (cls.__new__) whose state is __getstate__() or the instance __dict__, installed by
+    __setstate__ or into __dict__.  Attribute values travel by value (symbolic cells are immutable terms; arrays copied)."""
+    cls = type(obj)
+
+    def val(v):
+        return v.copy() if isinstance(v, symnp.SymArray) else v
+
+    def set_state(new, state):
+        if state is None:
+            return
+        if "__setstate__" in _user_attrs(cls):
+            new.__setstate__(state)
+        else:
+            slots = None
+            if isinstance(state, tuple) and len(state) == 2:
+                state, slots = state
+            if state:
+                new.__dict__.update({k: val(v) for k, v in state.items()})
+            if slots:
+                for k, v in slots.items():
+                    setattr(new, k, val(v))
+    ua = _user_attrs(cls)
+    red = None
+    if "__reduce_ex__" in ua:
+        red = obj.__reduce_ex__(2)
+    elif "__reduce__" in ua:
+        red = obj.__reduce__()
+    if red is not None:
+        if isinstance(red, str):
+            return obj
+        new = red[0](*[val(a) for a in red[1]])
+        set_state(new, red[2] if len(red) > 2 else None)
+        return new
+    args = obj.__getnewargs__() if "__getnewargs__" in ua else ()
+    new = cls.__new__(cls, *args)
+    state = obj.__getstate__() if "__getstate__" in ua else dict(obj.__dict__)
+    set_state(new, state)
+    return new
+
+
+def _user_attrs(cls):
+    out = set()
+    for k in cls.__mro__:
+        if k is object:
+            continue
+        out |= set(vars(k))
+    return out
